@@ -76,8 +76,8 @@ class Gen:
             return [S("quote"), S(r.choice(["a", "b", "foo", "k"]))]
         if t == "list":
             n = r.choice([0, 1, 2, 3, 4])
-            if self.p(0.5) and n > 0:
-                # (the literal '() is not generated: known finding C01-F01)
+            if self.p(0.5):
+                # (the literal '() was not generated while C01-F01 was open; repaired in /repo 5f360a25)
                 return [S("quote"), [r.randint(-9, 9) for _ in range(n)]]
             return [S("list")] + [r.randint(-9, 9) for _ in range(n)]
         if t == "vec":
@@ -480,8 +480,34 @@ class Gen:
         """Function shapes aimed at specific lowering paths (each returns (define-form, name, probe forms))."""
         r = self.r
         name = S("sf%d" % len(self.funcs))
-        k = r.randrange(3)
+        k = r.randrange(4)
         a, b, c = r.randint(1, 9), r.randint(1, 9), r.randint(0, 4)
+        if k == 3:
+            # late parameters (5th and later live in the native tier's spilled registers): read as a leading operand and
+            # again, for the last time, inside a later operand; called directly, through a wrapper and through apply
+            self.features.add("late-parameter")
+            n = r.randint(5, 8)
+            pos = r.randint(4, n - 1)
+            ps = [S("q%d" % j) for j in range(n)]
+            m = ps[pos]
+            other = ps[r.choice([j for j in range(n) if j != pos])]
+            body = r.choice([
+                [S("cons"), m, [S("length"), m]],
+                [S("list"), m, [S("cdr"), m], other],
+                [S("list"), [S("car"), m], m, [S("length"), m]],
+                [S("cons"), other, [S("append"), m, m]],
+                [S("list"), m, other, [S("reverse"), m]],
+            ])
+            form = [S("define"), [name] + ps, body]
+            self.funcs[name] = (["list" if j == pos else "int" for j in range(n)], "list", False)
+            args = [r.randint(0, 9) for _ in range(n)]
+            args[pos] = [S("list"), a, b, c]
+            wrapper = S(str(name) + "-via")
+            probes = [[S("verif-emit"), [name] + args],
+                      [S("define"), [wrapper, S("x")], [name] + [S("x") if j == pos else args[j] for j in range(n)]],
+                      [S("verif-emit"), [wrapper, [S("list"), b, c]]],
+                      [S("verif-emit"), [S("apply"), name, [S("list")] + args]]]
+            return form, name, probes
         if k == 0:
             # internal defines interleaved with assignments: a later internal define must see the assignment
             self.features.add("internal-define-sequence")
